@@ -2,17 +2,680 @@
 //! the virtio-pci structures (common, notify, ISR, device configuration) served behind the BAR
 //! windows of the MMIO seam. Written from the PCI and VirtIO 1.2 text (DESIGN appendix A).
 
-use crate::world::World;
+use crate::hal::SimHal;
+use crate::mmio::{BAR_VIRT_BASE, CAM_VIRT_BASE};
+use crate::world::{self, PointKind, TrEv, World};
+use std::collections::BTreeMap;
+use virtio_drivers::transport::pci::PciTransport;
+use virtio_drivers::transport::pci::bus::{Cam, ConfigurationAccess, DeviceFunction, MmioCam, PciRoot};
+
+#[derive(Copy, Clone, Debug, PartialEq, Eq)]
+pub enum BarKind {
+    None,
+    Mem32,
+    Below1M,
+    Mem64,
+    /// upper half of the preceding 64-bit BAR
+    Mem64Hi,
+    Io,
+    /// memory BAR with the reserved type encoding 0b11
+    Reserved3,
+}
+
+#[derive(Clone, Debug)]
+pub struct CfgAcc {
+    pub df: (u8, u8, u8),
+    pub reg: u8,
+    pub write: bool,
+    pub value: u32,
+    /// command register value at the time of the access
+    pub command: u16,
+}
+
+#[derive(Copy, Clone, Debug, Default, PartialEq, Eq)]
+pub struct Win {
+    pub bar: u8,
+    pub off: u64,
+    pub len: u64,
+}
+
+#[derive(Clone, Debug)]
+pub struct PciFunc {
+    pub raw: [u8; 256],
+    pub command: u16,
+    pub bar_regs: [u32; 6],
+    pub bar_rw: [u32; 6],
+    pub bar_kind: [BarKind; 6],
+    pub bar_size: [u64; 6],
+    pub guard_bar_writes: bool,
+    pub virtio: Option<VirtioPci>,
+}
+
+#[derive(Clone, Debug, Default)]
+pub struct VirtioPci {
+    pub common: Win,
+    pub notify: Win,
+    pub notify_mult: u32,
+    pub isr: Win,
+    pub devcfg: Option<Win>,
+    pub queue_notify_off: Vec<u16>,
+    pub dev_feat_sel: u32,
+    pub drv_feat_sel: u32,
+    pub drv_feat: [u32; 2],
+    pub queue_select: u16,
+    pub msix_config: u16,
+    /// per-queue staged parameters
+    pub q_size: BTreeMap<u16, u16>,
+    pub q_desc: BTreeMap<u16, u64>,
+    pub q_driver: BTreeMap<u16, u64>,
+    pub q_device: BTreeMap<u16, u64>,
+    pub q_msix: BTreeMap<u16, u16>,
+    /// common-cfg offsets written since the last queue_select write
+    pub written_since_select: Vec<u32>,
+    pub reset_delay: u32,
+    pub reset_pending: Option<u32>,
+    pub reset_polls: u64,
+    /// strict access discipline (C11 oracle)
+    pub strict: bool,
+}
 
 #[derive(Default)]
-pub struct PciWorld {}
-
-pub fn cam_access(w: &mut World, off: u64, _width: u8, _write: Option<u64>) -> u64 {
-    w.violation("pci-no-device", "cam", format!("configuration access at {off:#x} without a PCI world"));
-    0
+pub struct PciWorld {
+    pub funcs: BTreeMap<(u8, u8, u8), PciFunc>,
+    pub ecam: bool,
+    pub log: Option<Vec<CfgAcc>>,
+    /// windows the driver requested through mmio_phys_to_virt: (paddr, size, virtual base)
+    pub maps: Vec<(u64, usize, usize)>,
+    pub virtio_df: Option<(u8, u8, u8)>,
 }
 
-pub fn bar_access(w: &mut World, off: u64, _width: u8, _write: Option<u64>) -> u64 {
-    w.violation("pci-no-device", "bar", format!("BAR access at {off:#x} without a PCI world"));
-    0
+impl PciFunc {
+    pub fn new(vendor: u16, device: u16) -> Self {
+        let mut raw = [0u8; 256];
+        raw[0..2].copy_from_slice(&vendor.to_le_bytes());
+        raw[2..4].copy_from_slice(&device.to_le_bytes());
+        PciFunc {
+            raw,
+            command: 0,
+            bar_regs: [0; 6],
+            bar_rw: [0; 6],
+            bar_kind: [BarKind::None; 6],
+            bar_size: [0; 6],
+            guard_bar_writes: false,
+            virtio: None,
+        }
+    }
+
+    pub fn set_bar(&mut self, i: usize, kind: BarKind, size: u64, prefetch: bool, addr: u64) {
+        let pf = if prefetch { 8u32 } else { 0 };
+        self.bar_kind[i] = kind;
+        self.bar_size[i] = size;
+        match kind {
+            BarKind::None | BarKind::Mem64Hi => {
+                self.bar_regs[i] = 0;
+                self.bar_rw[i] = 0;
+            }
+            BarKind::Mem32 | BarKind::Below1M | BarKind::Reserved3 => {
+                let t = match kind {
+                    BarKind::Mem32 => 0u32,
+                    BarKind::Below1M => 2,
+                    _ => 6,
+                };
+                self.bar_rw[i] = (!(size.wrapping_sub(1)) as u32) & 0xffff_fff0;
+                self.bar_regs[i] = ((addr as u32) & self.bar_rw[i]) | t | pf;
+            }
+            BarKind::Io => {
+                self.bar_rw[i] = (!(size.wrapping_sub(1)) as u32) & 0xffff_fffc;
+                self.bar_regs[i] = ((addr as u32) & self.bar_rw[i]) | 1;
+            }
+            BarKind::Mem64 => {
+                let mask = !(size.wrapping_sub(1));
+                self.bar_rw[i] = (mask as u32) & 0xffff_fff0;
+                self.bar_regs[i] = ((addr as u32) & self.bar_rw[i]) | 4 | pf;
+                if i + 1 < 6 {
+                    self.bar_kind[i + 1] = BarKind::Mem64Hi;
+                    self.bar_rw[i + 1] = (mask >> 32) as u32;
+                    self.bar_regs[i + 1] = ((addr >> 32) as u32) & self.bar_rw[i + 1];
+                    self.bar_size[i + 1] = 0;
+                }
+            }
+        }
+    }
+
+    /// (address, size) of the memory BAR `i` as a device would decode it; None if not a memory BAR.
+    pub fn mem_bar(&self, i: usize) -> Option<(u64, u64)> {
+        match self.bar_kind.get(i)? {
+            BarKind::Mem32 | BarKind::Below1M => Some(((self.bar_regs[i] & 0xffff_fff0) as u64, self.bar_size[i])),
+            BarKind::Mem64 if i < 5 => Some((((self.bar_regs[i] & 0xffff_fff0) as u64) | ((self.bar_regs[i + 1] as u64) << 32), self.bar_size[i])),
+            _ => None,
+        }
+    }
+
+    pub fn read(&self, reg: u8) -> u32 {
+        let r = (reg & 0xfc) as usize;
+        match r {
+            0x04 => (u16::from_le_bytes([self.raw[6], self.raw[7]]) as u32) << 16 | self.command as u32,
+            0x10..=0x24 => self.bar_regs[(r - 0x10) / 4],
+            _ => u32::from_le_bytes(self.raw[r..r + 4].try_into().unwrap()),
+        }
+    }
+
+    pub fn write(&mut self, reg: u8, data: u32) -> Option<String> {
+        let r = (reg & 0xfc) as usize;
+        match r {
+            0x04 => {
+                self.command = (data & 0x07ff) as u16;
+                None
+            }
+            0x10..=0x24 => {
+                let i = (r - 0x10) / 4;
+                let mut complaint = None;
+                if self.guard_bar_writes && self.command & 3 != 0 {
+                    complaint = Some(format!("BAR{i} written with {data:#x} while address decoding is enabled (command {:#x})", self.command));
+                }
+                self.bar_regs[i] = (self.bar_regs[i] & !self.bar_rw[i]) | (data & self.bar_rw[i]);
+                complaint
+            }
+            _ => None,
+        }
+    }
 }
+
+fn pci(w: &mut World) -> &mut PciWorld {
+    w.bus.pci.get_or_insert_with(PciWorld::default)
+}
+
+pub fn cfg_read(w: &mut World, df: (u8, u8, u8), reg: u8) -> u32 {
+    let p = pci(w);
+    let (v, cmd) = match p.funcs.get(&df) {
+        Some(f) => (f.read(reg), f.command),
+        None => (0xffff_ffff, 0),
+    };
+    if let Some(l) = &mut p.log {
+        l.push(CfgAcc { df, reg, write: false, value: v, command: cmd });
+    }
+    w.ev(0x90, ((df.0 as u64) << 16) | ((df.1 as u64) << 8) | df.2 as u64, ((reg as u64) << 32) | v as u64);
+    if let Some(t) = &mut w.trace {
+        if t.len() < 100_000 {
+            t.push(format!("[{}] pci cfg read {:02x}:{:02x}.{} reg {:#x} = {:#x}", w.tick, df.0, df.1, df.2, reg, v));
+        }
+    }
+    v
+}
+
+pub fn cfg_write(w: &mut World, df: (u8, u8, u8), reg: u8, data: u32) {
+    let p = pci(w);
+    let mut complaint = None;
+    let mut cmd = 0;
+    if let Some(f) = p.funcs.get_mut(&df) {
+        cmd = f.command;
+        complaint = f.write(reg, data);
+    }
+    if let Some(l) = &mut p.log {
+        l.push(CfgAcc { df, reg, write: true, value: data, command: cmd });
+    }
+    w.ev(0x91, ((df.0 as u64) << 16) | ((df.1 as u64) << 8) | df.2 as u64, ((reg as u64) << 32) | data as u64);
+    if let Some(t) = &mut w.trace {
+        if t.len() < 100_000 {
+            t.push(format!("[{}] pci cfg write {:02x}:{:02x}.{} reg {:#x} = {:#x}", w.tick, df.0, df.1, df.2, reg, data));
+        }
+    }
+    if let Some(c) = complaint {
+        w.violation("bar-write-while-decoding", "config", c);
+    }
+}
+
+/// Access through the memory-mapped configuration window (real `MmioCam`).
+pub fn cam_access(w: &mut World, off: u64, width: u8, write: Option<u64>) -> u64 {
+    if width != 4 || off % 4 != 0 {
+        w.violation("cam-access-width", "cam", format!("{width}-byte access at CAM offset {off:#x}"));
+    }
+    let ecam = pci(w).ecam;
+    let (bus, dev, func, reg) = if ecam {
+        (((off >> 20) & 0xff) as u8, ((off >> 15) & 0x1f) as u8, ((off >> 12) & 7) as u8, (off & 0xfff) as u32)
+    } else {
+        (((off >> 16) & 0xff) as u8, ((off >> 11) & 0x1f) as u8, ((off >> 8) & 7) as u8, (off & 0xff) as u32)
+    };
+    if reg > 0xff {
+        w.violation("cam-register-range", "cam", format!("ECAM access to extended register {reg:#x} (only 8-bit register offsets can be asked for)"));
+        return 0xffff_ffff;
+    }
+    match write {
+        None => cfg_read(w, (bus, dev, func), reg as u8) as u64,
+        Some(v) => {
+            cfg_write(w, (bus, dev, func), reg as u8, v as u32);
+            0
+        }
+    }
+}
+
+/// Direct implementation of the configuration access trait.
+pub struct SimCam;
+
+impl ConfigurationAccess for SimCam {
+    fn read_word(&self, df: DeviceFunction, register_offset: u8) -> u32 {
+        world::with(|w| cfg_read(w, (df.bus, df.device, df.function), register_offset))
+    }
+    fn write_word(&mut self, df: DeviceFunction, register_offset: u8, data: u32) {
+        world::with(|w| cfg_write(w, (df.bus, df.device, df.function), register_offset, data))
+    }
+    unsafe fn unsafe_clone(&self) -> Self {
+        SimCam
+    }
+}
+
+pub fn mmio_cam(ecam: bool) -> MmioCam<'static> {
+    world::with(|w| pci(w).ecam = ecam);
+    // SAFETY: never dereferenced (MMIO seam).
+    unsafe { MmioCam::new(CAM_VIRT_BASE as *mut u8, if ecam { Cam::Ecam } else { Cam::MmioCam }) }
+}
+
+/// Virtual address for a window the driver asks to map (keeps the low 12 bits for alignment).
+pub fn map_window(w: &mut World, paddr: u64, size: usize) -> usize {
+    let p = pci(w);
+    let idx = p.maps.len();
+    let virt = BAR_VIRT_BASE + ((idx + 1) << 33) + (paddr as usize & 0xfff);
+    p.maps.push((paddr, size, virt));
+    virt
+}
+
+fn vp(w: &mut World) -> Option<&mut VirtioPci> {
+    let p = w.bus.pci.as_mut()?;
+    let df = p.virtio_df?;
+    p.funcs.get_mut(&df)?.virtio.as_mut()
+}
+
+fn strict_violation(w: &mut World, class: &str, site: &str, msg: String) {
+    if vp(w).map(|v| v.strict).unwrap_or(true) {
+        w.violation(class, site, msg);
+    }
+}
+
+/// (offset, size, name, writable)
+pub const COMMON_FIELDS: &[(u32, u8, &str, bool)] = &[
+    (0, 4, "device_feature_select", true),
+    (4, 4, "device_feature", false),
+    (8, 4, "driver_feature_select", true),
+    (12, 4, "driver_feature", true),
+    (16, 2, "msix_config", true),
+    (18, 2, "num_queues", false),
+    (20, 1, "device_status", true),
+    (21, 1, "config_generation", false),
+    (22, 2, "queue_select", true),
+    (24, 2, "queue_size", true),
+    (26, 2, "queue_msix_vector", true),
+    (28, 2, "queue_enable", true),
+    (30, 2, "queue_notify_off", false),
+    (32, 8, "queue_desc", true),
+    (40, 8, "queue_driver", true),
+    (48, 8, "queue_device", true),
+];
+
+/// Access inside a BAR window (`off` is the offset from BAR_VIRT_BASE).
+pub fn bar_access(w: &mut World, off: u64, width: u8, write: Option<u64>) -> u64 {
+    let virt = BAR_VIRT_BASE + off as usize;
+    let Some(p) = w.bus.pci.as_ref() else {
+        w.violation("pci-no-device", "bar", format!("BAR access at {off:#x} without a PCI world"));
+        return 0;
+    };
+    // which requested window?
+    let Some(&(mpaddr, msize, mvirt)) = p.maps.iter().find(|(_, s, v)| virt >= *v && virt + width as usize <= *v + *s) else {
+        w.violation(
+            "pci-access-outside-requested-window",
+            "bar",
+            format!("{width}-byte MMIO access at virtual {virt:#x} lies in no window the driver mapped with mmio_phys_to_virt"),
+        );
+        return 0;
+    };
+    let paddr = mpaddr + (virt - mvirt) as u64;
+    let _ = msize;
+    let Some(df) = p.virtio_df else {
+        return 0;
+    };
+    let f = &p.funcs[&df];
+    let Some(v) = f.virtio.as_ref() else {
+        return 0;
+    };
+    // which structure?
+    let locate = |win: &Win| -> Option<u64> {
+        let (ba, bs) = f.mem_bar(win.bar as usize)?;
+        if ba == 0 || win.off.checked_add(win.len)? > bs {
+            return None;
+        }
+        let start = ba + win.off;
+        if paddr >= start && paddr + width as u64 <= start + win.len { Some(paddr - start) } else { None }
+    };
+    let (which, o) = if let Some(o) = locate(&v.common) {
+        ("common", o)
+    } else if let Some(o) = locate(&v.notify) {
+        ("notify", o)
+    } else if let Some(o) = locate(&v.isr) {
+        ("isr", o)
+    } else if let Some(o) = v.devcfg.as_ref().and_then(locate) {
+        ("device", o)
+    } else {
+        w.violation(
+            "pci-access-outside-structures",
+            "bar",
+            format!("{width}-byte MMIO access at bus address {paddr:#x} is inside a mapped window but in none of the device's virtio structures"),
+        );
+        return 0;
+    };
+    match which {
+        "common" => common_access(w, o as u32, width, write),
+        "notify" => {
+            let Some(val) = write else {
+                strict_violation(w, "pci-notify-read", "notify", "read from the notification window".into());
+                return 0;
+            };
+            let v = vp(w).unwrap();
+            let mult = v.notify_mult as u64;
+            let q = val as u16;
+            let want = v.queue_notify_off.get(q as usize).map(|n| *n as u64 * mult);
+            if width != 2 {
+                strict_violation(w, "pci-notify-width", "notify", format!("{width}-byte notification write"));
+            }
+            if want != Some(o) {
+                strict_violation(
+                    w,
+                    "pci-notify-address",
+                    "notify",
+                    format!("queue {q} notified at window offset {o:#x}; its address is queue_notify_off x multiplier = {want:x?}"),
+                );
+            }
+            w.t_notify(q);
+            0
+        }
+        "isr" => {
+            if write.is_some() {
+                strict_violation(w, "pci-isr-write", "isr", "write to the ISR status".into());
+                return 0;
+            }
+            if width != 1 || o != 0 {
+                strict_violation(w, "pci-isr-width", "isr", format!("{width}-byte ISR read at offset {o}"));
+            }
+            // reading clears
+            w.t_ack_interrupt() as u64
+        }
+        _ => {
+            let n = width as usize;
+            match write {
+                None => {
+                    let mut b = [0u8; 8];
+                    if !w.t_read_config(o as usize, &mut b[..n]) {
+                        w.violation("config-access-out-of-window", "config", format!("read of {n} bytes at device-config offset {o:#x} beyond the device's configuration"));
+                    }
+                    u64::from_le_bytes(b)
+                }
+                Some(val) => {
+                    let b = val.to_le_bytes();
+                    if !w.t_write_config(o as usize, &b[..n]) {
+                        w.violation("config-access-out-of-window", "config", format!("write of {n} bytes at device-config offset {o:#x} beyond the device's configuration"));
+                    }
+                    0
+                }
+            }
+        }
+    }
+}
+
+fn common_access(w: &mut World, o: u32, width: u8, write: Option<u64>) -> u64 {
+    // find the field
+    let field = COMMON_FIELDS.iter().find(|f| o >= f.0 && o < f.0 + f.1 as u32).copied();
+    let Some((fo, fs, name, writable)) = field else {
+        strict_violation(w, "pci-common-offset", "common", format!("access at common-configuration offset {o} beyond the standard layout"));
+        return 0;
+    };
+    let natural = (o == fo && width == fs) || (fs == 8 && width == 4 && (o == fo || o == fo + 4));
+    if !natural {
+        strict_violation(w, "pci-common-width", name, format!("{width}-byte access at offset {o} of field {name} (offset {fo}, {fs} bytes)"));
+    }
+    if write.is_some() && !writable {
+        strict_violation(w, "pci-common-read-only", name, format!("write to read-only field {name}"));
+        return 0;
+    }
+    let sel = vp(w).unwrap().queue_select;
+    match write {
+        None => match fo {
+            0 => vp(w).unwrap().dev_feat_sel as u64,
+            4 => {
+                let s = vp(w).unwrap().dev_feat_sel;
+                let f = w.t_read_features();
+                match s {
+                    0 => f & 0xffff_ffff,
+                    1 => f >> 32,
+                    _ => 0,
+                }
+            }
+            8 => vp(w).unwrap().drv_feat_sel as u64,
+            12 => {
+                let v = vp(w).unwrap();
+                v.drv_feat.get(v.drv_feat_sel as usize).copied().unwrap_or(0) as u64
+            }
+            16 => vp(w).unwrap().msix_config as u64,
+            18 => w.tr.queues.len() as u64,
+            20 => {
+                // a reset may complete late
+                let pending = vp(w).unwrap().reset_pending;
+                if let Some(n) = pending {
+                    let v = vp(w).unwrap();
+                    v.reset_polls += 1;
+                    if n == 0 {
+                        v.reset_pending = None;
+                        w.t_get_status() as u64
+                    } else {
+                        v.reset_pending = Some(n - 1);
+                        *w.stats.faults.entry("reset_completes_late").or_insert(0) += 1;
+                        w.sched_point(PointKind::Transport);
+                        0x40
+                    }
+                } else {
+                    w.t_get_status() as u64 & 0xff
+                }
+            }
+            21 => w.t_read_gen() as u64 & 0xff,
+            22 => sel as u64,
+            24 => {
+                let staged = vp(w).unwrap().q_size.get(&sel).copied();
+                match staged {
+                    Some(s) => s as u64,
+                    None => w.t_max_queue_size(sel) as u64 & 0xffff,
+                }
+            }
+            26 => vp(w).unwrap().q_msix.get(&sel).copied().unwrap_or(0xffff) as u64,
+            28 => w.t_queue_used(sel) as u64,
+            30 => vp(w).unwrap().queue_notify_off.get(sel as usize).copied().unwrap_or(0) as u64,
+            32 | 40 | 48 => {
+                let v = vp(w).unwrap();
+                let m = match fo {
+                    32 => &v.q_desc,
+                    40 => &v.q_driver,
+                    _ => &v.q_device,
+                };
+                let full = m.get(&sel).copied().unwrap_or(0);
+                if width == 8 { full } else if o == fo { full & 0xffff_ffff } else { full >> 32 }
+            }
+            _ => 0,
+        },
+        Some(val) => {
+            {
+                let v = vp(w).unwrap();
+                if fo == 22 {
+                    v.written_since_select.clear();
+                } else {
+                    v.written_since_select.push(fo);
+                }
+            }
+            match fo {
+                0 => vp(w).unwrap().dev_feat_sel = val as u32,
+                8 => vp(w).unwrap().drv_feat_sel = val as u32,
+                12 => {
+                    let v = vp(w).unwrap();
+                    let s = v.drv_feat_sel as usize;
+                    if s < 2 {
+                        v.drv_feat[s] = val as u32;
+                    }
+                    let f = v.drv_feat[0] as u64 | ((v.drv_feat[1] as u64) << 32);
+                    w.t_write_features(f);
+                }
+                16 => vp(w).unwrap().msix_config = val as u16,
+                20 => {
+                    let s = val as u32 & 0xff;
+                    if s == 0 {
+                        let delay = vp(w).unwrap().reset_delay;
+                        let n = if delay > 0 { w.tape.choose(delay as u64 + 1) as u32 } else { 0 };
+                        if n > 0 {
+                            vp(w).unwrap().reset_pending = Some(n);
+                        }
+                        let v = vp(w).unwrap();
+                        v.q_size.clear();
+                        v.q_desc.clear();
+                        v.q_driver.clear();
+                        v.q_device.clear();
+                        v.drv_feat = [0, 0];
+                    }
+                    w.t_set_status(s);
+                }
+                22 => vp(w).unwrap().queue_select = val as u16,
+                24 => {
+                    vp(w).unwrap().q_size.insert(sel, val as u16);
+                }
+                26 => {
+                    vp(w).unwrap().q_msix.insert(sel, val as u16);
+                }
+                28 => {
+                    if val == 1 {
+                        let v = vp(w).unwrap();
+                        let ws = v.written_since_select.clone();
+                        let en = ws.iter().rposition(|x| *x == 28).unwrap();
+                        let ok = [32u32, 40, 48].iter().all(|r| ws.iter().position(|x| x == r).is_some_and(|p| p < en));
+                        let size = v.q_size.get(&sel).copied();
+                        let (d, dr, de) = (v.q_desc.get(&sel).copied().unwrap_or(0), v.q_driver.get(&sel).copied().unwrap_or(0), v.q_device.get(&sel).copied().unwrap_or(0));
+                        if !ok {
+                            strict_violation(
+                                w,
+                                "pci-queue-setup-order",
+                                "queue_enable",
+                                format!("queue_enable written 1 before queue_desc/queue_driver/queue_device were written after selecting the queue; writes since queue_select: {ws:?}"),
+                            );
+                        }
+                        let size = match size {
+                            Some(s) => s as u32,
+                            None => w.t_max_queue_size(sel),
+                        };
+                        w.t_queue_set(sel, size, d, dr, de);
+                    } else {
+                        strict_violation(w, "pci-queue-enable-value", "queue_enable", format!("queue_enable written with {val} (the PCI transport cannot disable a queue)"));
+                    }
+                }
+                32 | 40 | 48 => {
+                    let v = vp(w).unwrap();
+                    let m = match fo {
+                        32 => &mut v.q_desc,
+                        40 => &mut v.q_driver,
+                        _ => &mut v.q_device,
+                    };
+                    let cur = m.get(&sel).copied().unwrap_or(0);
+                    let new = if width == 8 {
+                        val
+                    } else if o == fo {
+                        (cur & !0xffff_ffff) | (val & 0xffff_ffff)
+                    } else {
+                        (cur & 0xffff_ffff) | (val << 32)
+                    };
+                    m.insert(sel, new);
+                }
+                _ => {}
+            }
+            0
+        }
+    }
+}
+
+/// Fills the capability list of `f` at 0x40.. from (cfg_type, cap_len, bar, offset, length, extra)
+/// tuples, in the given order; `id` 0x09 = vendor specific, anything else = foreign capability.
+pub fn write_caps(f: &mut PciFunc, caps: &[(u8, u8, u8, u8, u32, u32, u32)]) {
+    // status: capability list present
+    f.raw[6] |= 0x10;
+    let mut pos = 0x40usize;
+    f.raw[0x34] = if caps.is_empty() { 0 } else { pos as u8 };
+    for (i, (id, cfg_type, cap_len, bar, offset, length, extra)) in caps.iter().enumerate() {
+        let size = 24usize;
+        let next = if i + 1 < caps.len() { pos + size } else { 0 };
+        f.raw[pos] = *id;
+        f.raw[pos + 1] = next as u8;
+        f.raw[pos + 2] = *cap_len;
+        f.raw[pos + 3] = *cfg_type;
+        f.raw[pos + 4] = *bar;
+        f.raw[pos + 5] = 0;
+        f.raw[pos + 8..pos + 12].copy_from_slice(&offset.to_le_bytes());
+        f.raw[pos + 12..pos + 16].copy_from_slice(&length.to_le_bytes());
+        f.raw[pos + 16..pos + 20].copy_from_slice(&extra.to_le_bytes());
+        pos += size;
+        if pos + size > 256 {
+            break;
+        }
+    }
+}
+
+pub const VIRTIO_DF: (u8, u8, u8) = (0, 3, 0);
+
+/// A well-formed virtio-pci function for `device_type` with `config_len` bytes of device
+/// configuration; details (BAR slot, 32/64 bit, window placement, multiplier) drawn from the tape.
+pub fn install_standard_function(w: &mut World, device_type: u32, config_len: usize) {
+    let slot = w.tape.choose(5) as usize;
+    let is64 = w.tape.choose(2) == 0;
+    let mult = [4u32, 0, 2, 8][w.tape.choose(4) as usize];
+    let nq = w.tr.queues.len().max(1);
+    let mut f = PciFunc::new(0x1af4, 0x1040 + device_type as u16);
+    f.raw[0x0a] = 0x80;
+    f.raw[0x0b] = 0xff;
+    let size = 0x10000u64;
+    let addr = if is64 { 0x8_0000_0000u64 + 0x10000 * (1 + w.tape.choose(64)) } else { 0x9000_0000 + 0x10000 * w.tape.choose(64) };
+    f.set_bar(slot, if is64 { BarKind::Mem64 } else { BarKind::Mem32 }, size, is64, addr);
+    f.command = 0x6;
+    let common = Win { bar: slot as u8, off: 0x0, len: 0x38 };
+    let notify = Win { bar: slot as u8, off: 0x3000, len: 0x1000 };
+    let isr = Win { bar: slot as u8, off: 0x1000, len: 4 };
+    let clen4 = ((config_len + 3) & !3) as u64;
+    let devcfg = if w.tr.has_config { Some(Win { bar: slot as u8, off: 0x2000, len: clen4.max(4) }) } else { None };
+    let mut caps = vec![
+        (0x09u8, 1u8, 16u8, slot as u8, common.off as u32, common.len as u32, 0u32),
+        (0x09, 2, 20, slot as u8, notify.off as u32, notify.len as u32, mult),
+        (0x09, 3, 16, slot as u8, isr.off as u32, isr.len as u32, 0),
+    ];
+    if let Some(d) = devcfg {
+        caps.push((0x09, 4, 16, slot as u8, d.off as u32, d.len as u32, 0));
+    }
+    // a foreign capability in front, and the PCI configuration access capability (type 5) behind
+    caps.insert(0, (0x05, 0, 0, 0, 0, 0, 0));
+    caps.push((0x09, 5, 20, 0, 0, 4, 0));
+    write_caps(&mut f, &caps);
+    let offs: Vec<u16> = (0..nq as u16).map(|q| if mult == 0 { 0 } else { q }).collect();
+    f.virtio = Some(VirtioPci { common, notify, notify_mult: mult, isr, devcfg, queue_notify_off: offs, strict: true, ..Default::default() });
+    let p = pci(w);
+    p.funcs.insert(VIRTIO_DF, f);
+    p.virtio_df = Some(VIRTIO_DF);
+    w.hal.mmio_virt_of = None;
+}
+
+pub fn virtio_df() -> DeviceFunction {
+    DeviceFunction { bus: VIRTIO_DF.0, device: VIRTIO_DF.1, function: VIRTIO_DF.2 }
+}
+
+/// Real `PciTransport` over a standard well-formed function (used by the driver zoo).
+pub fn make_pci_transport(device_type: u32, config_len: usize) -> Result<PciTransport, String> {
+    let via_cam = world::with(|w| {
+        install_standard_function(w, device_type, config_len);
+        w.tape.choose(3)
+    });
+    let r = match via_cam {
+        0 => PciTransport::new::<SimHal, _>(&mut PciRoot::new(SimCam), virtio_df()),
+        1 => PciTransport::new::<SimHal, _>(&mut PciRoot::new(mmio_cam(false)), virtio_df()),
+        _ => PciTransport::new::<SimHal, _>(&mut PciRoot::new(mmio_cam(true)), virtio_df()),
+    };
+    r.map_err(|e| format!("{e:?}"))
+}
+
+#[allow(dead_code)]
+fn _unused(_: TrEv) {}
